@@ -13,7 +13,7 @@ PID = 'C17'
 META = {
     'technique': 'Coq proof (invariants over all histories of an executable ResponseFuture model) + per-step correspondence with the real class on exhaustive plan x pool-state scopes',
     'level_text': 'C17_order / C17_order_history / C17_no_repeat / C17_other_sends_are_tasks / C17_retry_task_needs_decision / C17_exhaustion_lists_every_host / '
-                  'C17_exhaustion / C17_errors_only_plan_hosts / C17_next_page_fresh_plan / C17_order_every_page / C17_replan_master_nodup / C17_target_only proved for every plan, pool-state assignment, retry-policy '
+                  'C17_exhaustion / C17_errors_only_plan_hosts / C17_next_page_fresh_plan / C17_order_every_page / C17_replan_master_nodup / C17_timeout_stops_the_walk / C17_target_only proved for every plan, pool-state assignment, retry-policy '
                   'oracle and history (responses, executor runs, speculative firings, pool changes) of the FutB model; model tied to '
                   'cluster.py by step-by-step differential execution of the real ResponseFuture.',
     'level_note': 'Trusted: Coq kernel, the fake session/pool/connection/timer harness, py2coq for uses_keyspace_flag. Not modelled: '
@@ -34,6 +34,7 @@ def base(n, plan, pools, **kw):
           'pv': 4, 'ks': None, 'ps': None, 'known': [], 'script': [[3, None]] * 12, 'ops': []}
     sc['nids'] = [1, 4, 2][(sum(pools) + len(plan)) % 3]
     sc['metrics'] = bool(sum(pools) % 2)
+    sc['inline'] = (sum(pools) + 2 * len(plan)) % 3 == 1      # executor-first schedule of retries in a third of the cases
     sc.update(kw)
     return sc
 
@@ -95,6 +96,46 @@ def spec_races(ctx):
                     else:
                         break
                 items.append((sc, obs, orc.bad, {'nontrivial': True}))
+    return items
+
+
+def speculative(ctx):
+    """two executions in flight (speculative execution fired) and one of them fails: a same-host retry goes to the host that
+    failed, a next-host retry to the next plan host -- for server errors and for connection errors, both orders, both schedules"""
+    items = []
+    for kind in (3, 7, 8, 0):
+        for dec in (0, 3):
+            for first in (0, 1):
+                for inline in (False, True):
+                    sc = base(3, [1, 0, 2], [6, 6, 6], idem=True, spec=[True, 1], inline=inline,
+                              script=[[dec, None], [1, None], [1, None]])
+                    run = H.Run(sc)
+                    orc = K.Oracle(sc, run, PID)
+                    obs = []
+                    for op in [['start'], ['spec'], ['resp', first, [3, kind, 10]], ['run', 0], ['resp', 1 - first, [0]]]:
+                        if op[0] == 'run' and not run.env.queue:
+                            continue
+                        if op[0] == 'resp' and op[1] not in run.open_attempts():
+                            continue
+                        sc['ops'].append(op)
+                        obs.append(orc.step(len(sc['ops']) - 1, op))
+                    items.append((sc, obs, orc.bad, {'nontrivial': True}))
+    return items
+
+
+def timeouts(ctx):
+    """a request with a client timeout; borrow_connection on some hosts outlasts it (pool state 7): the walk must stop there
+    without reporting NoHostAvailable for hosts it never tried; before / after a connection was ever borrowed"""
+    items = []
+    for n in (2, 3, 4):
+        for pools in itertools.product((7, 2, 6, 3), repeat=n):
+            if 7 not in pools:
+                continue
+            if n == 4 and ctx.rng.random() < 0.6:
+                continue
+            sc = base(n, list(range(n)), pools, timeout=True, script=[[3, None]] * 8)
+            obs, bad, run = K.drive_sequential(sc, PID, lambda i, prep, tag: [3, 3, tag], max_ops=14)
+            items.append((sc, obs, bad, {'nontrivial': True, 'sample': len(items) == 7}))
     return items
 
 
@@ -197,6 +238,12 @@ def run(ctx):
     tg = targeted(ctx)
     items += tg
     ctx.count('source', 'explicit_target', len(tg))
+    sp = speculative(ctx)
+    items += sp
+    ctx.count('source', 'two_executions_in_flight', len(sp))
+    to = timeouts(ctx)
+    items += to
+    ctx.count('source', 'client_timeout_elapses_in_borrow', len(to))
     pg = paged(ctx)
     items += pg
     ctx.count('source', 'paged_results', len(pg))
@@ -226,7 +273,7 @@ def run(ctx):
               'Python oracle of the C17 statement (lib/vf/futb_check.py, which=C17)')
     ctx.assume('each response delivery, each session.submit task and each timer callback is one atomic step (they run on the '
                'event-loop / executor threads one at a time per future in the modelled histories)',
-               'request timeout is None (the timeout exit of send_request belongs to C15)')
+               'what the timeout timer does when it fires belongs to C15; the walk\'s own timeout exit (time passing inside borrow_connection) is modelled')
 
 
 def replay(ctx, rp):
